@@ -381,6 +381,9 @@ class CallMixin:
                     v = VSeq(z3.IntVal(0), fresh(ty.elem, self.fresh_name('e'), 1), ty.skind)
                 if ty.kind == 'ref' and isinstance(v, VNone):
                     v = VRef(0, ty.cls)
+                if ty.kind in ('strid', 'optstrid') and isinstance(v, VOpaque) and v.tag == 'const' and isinstance(v.py, str):
+                    v = VInt(self.intern(v.py))
+                    v.strid = True
                 if ty.kind in ('optint', 'optstrid') and isinstance(v, (VNone, VInt)):
                     v = coerce(v, VOptInt(True, 0))
                 if ty.kind in ('optint', 'optstrid') and isinstance(v, (VSeq, VView, VTuple)):
